@@ -5,6 +5,7 @@
 package tds
 
 import (
+	"fmt"
 	"sync"
 )
 
@@ -156,6 +157,10 @@ func (queue *PacketQueue) Bytes(n int) ([]byte, error) {
 
 	if n == 0 {
 		return []byte{}, nil
+	}
+
+	if n < 0 {
+		return []byte{}, fmt.Errorf("tds: cannot read %d bytes", n)
 	}
 
 	bs := make([]byte, n)
